@@ -1634,7 +1634,7 @@ def find_optimal(
         cost = assignment_cost(assignment, constraints)
 
         # Take into account variable cost, if any
-        if hasattr(variable, "cost_for_value"):
+        if hasattr(variable, "cost_for_val"):
             cost += variable.cost_for_val(value)
 
         if cost == best_cost:
